@@ -439,10 +439,118 @@ func runC06(r *ev.Run) {
 			r.Violate(ev.Violation{Engine: "dbmc", Key: fmt.Sprintf("c06 %s [%s]", t.be, historyString(h)), What: fmt.Sprintf("%s, history [%s]: %s", t.be, historyString(h), what), Artefact: c06Artefact{Backend: t.be, History: h, MapOrder: 3}})
 		})
 	}
+	// Chained io roots (badger; pathbadger has one root per type and version chain): in version 2 an io root I
+	// is committed from the empty root, two competing io roots A and B are derived from I and a third one, C,
+	// from A; any of I, A, B, C is finalized next to the state root, one more version follows and version 1 is
+	// pruned; full read-back after every letter.
+	{
+		names := []string{"add", "del", "readd", "mod", "clear", "modall"}
+		type ch struct {
+			i, a, b, c int
+			fin        int
+		}
+		var chs []ch
+		for i := range names {
+			for a := range names {
+				for b := range names {
+					if a == b {
+						continue
+					}
+					for _, c := range []int{0, 3} {
+						for fin := 0; fin < 4; fin++ {
+							chs = append(chs, ch{i, a, b, c, fin})
+						}
+					}
+				}
+			}
+		}
+		ev.ParallelRange(len(chs), r.Seed, func(k int) {
+			t := chs[k]
+			h := []L{{Op: "commit", V: 1, Batch: "add2"}, {Op: "finalize", V: 1}, {Op: "commit", V: 2, Batch: "mod"},
+				{Op: "commit", V: 2, Type: "io", Batch: names[t.i]}}
+			e, what := runHistoryLoose("badger", h)
+			idx := func(root node.Root) int {
+				for j, c := range e.ref.candsOf(2, node.RootTypeIO) {
+					if c.root.Equal(&root) {
+						return j
+					}
+				}
+				return -1
+			}
+			step := func(l L) int {
+				h = append(h, l)
+				before := map[string]bool{}
+				for _, c := range e.ref.candsOf(2, node.RootTypeIO) {
+					before[c.root.Hash.String()] = true
+				}
+				if what = e.apply(l); what != "" {
+					return -1
+				}
+				if w := e.readBack(); w != "" {
+					what = fmt.Sprintf("after %s: %s", l, w)
+					return -1
+				}
+				for j, c := range e.ref.candsOf(2, node.RootTypeIO) {
+					if !before[c.root.Hash.String()] {
+						return j
+					}
+				}
+				return -2 // the batch produced a root that exists already
+			}
+			_ = idx
+			if e != nil && what == "" && len(e.ref.candsOf(2, node.RootTypeIO)) == 1 {
+				cands := []int{0}
+				ia := step(L{Op: "commit", V: 2, Type: "io", Batch: names[t.a], From: 1})
+				if ia >= 0 {
+					cands = append(cands, ia)
+				}
+				if what == "" {
+					if ib := step(L{Op: "commit", V: 2, Type: "io", Batch: names[t.b], From: 1}); ib >= 0 {
+						cands = append(cands, ib)
+					}
+				}
+				if what == "" && ia >= 0 {
+					if ic := step(L{Op: "commit", V: 2, Type: "io", Batch: names[t.c], From: ia + 1}); ic >= 0 {
+						cands = append(cands, ic)
+					}
+				}
+				if what == "" {
+					fin := cands[t.fin%len(cands)]
+					for _, l := range []L{{Op: "finalize", V: 2, Choice: 0, IO: fin + 1}, {Op: "commit", V: 3, Batch: "mod"}, {Op: "commit", V: 3, Type: "io", Batch: "add"}, {Op: "finalize", V: 3, IO: 1}, {Op: "prune", V: 1}} {
+						h = append(h, l)
+						if !e.applicable(l) {
+							what = fmt.Sprintf("harness: letter %s not applicable", l)
+							break
+						}
+						if what = e.apply(l); what != "" {
+							break
+						}
+						if w := e.readBack(); w != "" {
+							what = fmt.Sprintf("after %s: %s", l, w)
+							break
+						}
+					}
+				}
+			}
+			if e != nil {
+				e.ndb.Close()
+			}
+			r.Add("transitions", int64(len(h)))
+			r.Add("chained_io_histories", 1)
+			if what == "" {
+				return
+			}
+			if strings.HasPrefix(what, "harness:") {
+				r.HarnessError("%s [%s]", what, historyString(h))
+				return
+			}
+			r.Violate(ev.Violation{Engine: "dbmc", Key: fmt.Sprintf("c06 badger [%s]", historyString(h)), What: fmt.Sprintf("badger, history [%s]: %s", historyString(h), what), Artefact: c06Artefact{Backend: "badger", History: h, MapOrder: 3}})
+		})
+	}
 	r.Set("max_versions", int(maxVersion))
 	r.Set("max_candidates_per_version", maxCands)
 	r.Alias("traces_validated_against_impl", "transitions")
 	r.Set("rule", "breadth-first search over node-database histories: per version up to max_candidates state commits from the previous finalized root (batches add / del / remove+re-insert / modify / no-op / clear over 3 keys), an optional IO-root commit, finalize of any candidate (with or without the IO root), prune of the earliest version with any lag; successor = replay on a fresh database + 1 letter; deduplicated by the complete physical key/version dump of the store; after every letter every retained finalized root must be listed, present and fully readable (iteration, gets, verified proofs) with exactly the reference contents, and a discarded root is absent, unreadable or reads exactly its own contents")
-	r.Assume("this phase explores sequential histories; concurrent readers are explored by the concurrency phase (conc_* keys)", "Go map iteration order is fixed per phase (start offset 0 in the breadth-first search, 3 in the three-candidate and restore histories) so that replays are reproducible; on badger the number of physically distinct states still varies by a few dozen between runs (background compaction decides when superseded entries disappear from the dump): deduplication by the physical dump is finer than the logical state, so this only adds work", "keys limited to 3, values a/b", "badger: candidates derived from other candidates of the same version are not generated")
+	r.Assume("this phase explores sequential histories; concurrent readers are explored by the concurrency phase (conc_* keys)", "Go map iteration order is fixed per phase (start offset 0 in the breadth-first search, 3 in the three-candidate and restore histories) so that replays are reproducible; on badger the number of physically distinct states still varies by a few dozen between runs (background compaction decides when superseded entries disappear from the dump): deduplication by the physical dump is finer than the logical state, so this only adds work", "keys limited to 3, values a/b", "state candidates derived from other state candidates of the same version are not generated (io roots are: chained io phase)")
 	r.Finish()
 }
